@@ -41,6 +41,10 @@ def gen_case(rng, tier, index):
         hi = gen.depth_of(T)[1]
         axis = rng.randint(0, nlev - 1) if branches else ops.gen_axis(rng, T, wild=0.05)
         op = {"op": "rpad", "target": rng.choice([0, 1, 2, 3, 5]), "axis": axis, "clip": rng.random() < 0.5}
+        na = cc.maybe_negaxis(rng, T)
+        if na:
+            return {"stream": stream, "T": T, "layout": d, "op": dict(op, axis=na[0]), "negaxis": na[1], "depth": None,
+                    "nlev": nlev}
         return {"stream": stream, "T": T, "layout": d, "op": op, "depth": None if branches else hi, "nlev": nlev}
     cfg = cc.uniform_cfg(tier, options=False)
     inner = gen.gen_type(rng, cfg, depth=1)
@@ -74,6 +78,8 @@ def run_case(ctx, case):
     for k in model.classes(d):
         ctx.cover("input_classes", k)
     ctx.nontrivial(len(v) > 0)
+    if "negaxis" in case:
+        return cc.check_negaxis(ctx, b, h, case, out)
     if case["stream"] == "rpad":
         depth = case["depth"] if case["depth"] is not None else case["nlev"] + 50
         cc.compare(ctx, case, out, lambda: oracles.rpad(v, op["target"], op["axis"], op["clip"], depth),
@@ -121,6 +127,8 @@ def classify(vio):
 
 
 def signature(vio):
+    if vio["kind"] == "negative-axis-differs":
+        return cc.negaxis_signature(vio)
     det = vio.get("detail") or {}
     op = det.get("op") or {}
     return "%s:%s" % (vio["kind"], op.get("op")) if vio["kind"] in ("wrong-value", "unexpected-error", "missing-error") else None
